@@ -1,6 +1,7 @@
 package gen
 
 import (
+	"strings"
 	"fmt"
 	"math"
 	"math/rand/v2"
@@ -61,6 +62,9 @@ func (ds *DataSchema) record(r *rand.Rand, o DataOpts, depth int) *refavro.Schem
 	if r.IntN(5) == 0 {
 		n = 6 + r.IntN(9) // wide records: runs of several adjacent fields can be projected away
 	}
+	if depth == 0 && r.IntN(60) == 0 {
+		n = 65 + r.IntN(70) // very wide records: more fields than a machine word has bits
+	}
 	if depth > 0 && r.IntN(10) == 0 {
 		n = 0
 	}
@@ -86,6 +90,9 @@ func (ds *DataSchema) record(r *rand.Rand, o DataOpts, depth int) *refavro.Schem
 					name = fmt.Sprintf("f%d", i)
 				}
 			}
+		} else if r.IntN(50) == 0 {
+			// a name of 64 bytes and more
+			name = fmt.Sprintf("long_name_%d_%s", i, strings.Repeat("x", 54+r.IntN(20)))
 		} else if r.IntN(40) == 0 {
 			// a name that is also a struct-tag option keyword, or one of a pair with equal 32-bit FNV-1a hashes
 			name = pick(r, append([]string{"omitempty", "string", "omitzero"}, CollidingNames...))
@@ -202,6 +209,8 @@ type DatumOpts struct {
 	// OutOfRange: probability (1/n) that an integer leaves its hinted width (0 = never)
 	OutOfRange int
 	MaxElems   int
+	// Chain: arrays hold one item (zero now and then): for schemas nested tens of levels deep
+	Chain bool
 }
 
 // GenDatum returns a datum of schema s. outOfRange is set when an integer was
@@ -292,6 +301,14 @@ func (ds *DataSchema) GenDatum(r *rand.Rand, s *refavro.Schema, o DatumOpts, out
 		return rec
 	case "array":
 		n := 0
+		if o.Chain {
+			// exactly one successor per level (deeply nested chains), now and then the end of the chain
+			out := []any{}
+			if r.IntN(25) != 0 {
+				out = append(out, ds.GenDatum(r, s.Items, o, outOfRange))
+			}
+			return out
+		}
 		switch r.IntN(12) {
 		case 0, 1:
 		case 2, 3:
